@@ -8,8 +8,10 @@
     field).  Every entry carries the ledger id of its block; that id also plays the role of the
     entry's address for the iterator (ids are never reused, so a stale id is a dangling pointer).
 
-    Not wrapped: [size + 1] in add (a table with 2^64 live 32-byte entry blocks does not fit an
-    address space); everything else that C computes modulo 2^64 is written with wadd/wsub/wmul. *)
+    Not wrapped: the [size] counter ([size++] in add, [size--] in remove / remove_all are [+ 1] and
+    [- 1] on N). Under the invariant [size] is the number of entries, every decrement happens with an
+    entry in hand, and 2^64 live 32-byte entry blocks do not fit an address space. Everything else
+    that C computes modulo 2^64 is written with wadd/wsub/wmul. *)
 From CC Require Import Base.Prelude Base.Alloc Generated.Status Generated.Constants Generated.Guards.
 Local Open Scope N_scope.
 
@@ -210,7 +212,7 @@ Definition ht_remove (t : htable) (k : N) (a : alloc_st) : res (stat * option N 
   | Some (e, chain') =>
       do b' <- of_opt OutOfBounds (updN (ht_buckets t) i chain');
       do a1 <- release (ht_mem t) (e_id e) a;
-      Ok (CC_OK, Some (e_val e), set_tbl t b' (wsub (ht_size t) 1), a1)
+      Ok (CC_OK, Some (e_val e), set_tbl t b' (ht_size t - 1), a1)
   end.
 
 End WithHash.
@@ -219,7 +221,7 @@ End WithHash.
 Fixpoint free_chain (mem : tag) (c : list entry) (sz : N) (a : alloc_st) : res (N * alloc_st) :=
   match c with
   | [] => Ok (sz, a)
-  | e :: r => do a1 <- release mem (e_id e) a; free_chain mem r (wsub sz 1) a1
+  | e :: r => do a1 <- release mem (e_id e) a; free_chain mem r (sz - 1) a1
   end.
 Fixpoint free_buckets (mem : tag) (b : list (list entry)) (sz : N) (a : alloc_st) : res (N * alloc_st) :=
   match b with
